@@ -102,7 +102,7 @@ def handle (U : UTable) (line : String) : UTable × String :=
     | _ => pure' "bad-request"
   | ["dimofname", s] =>
     match dimOfName s.toList with
-    | .ok d => pure' s!"ok|{showPows d}"
+    | .ok d => pure' s!"ok|{showPows d}|{if d.all (fun e => validBaseB e.1) then 1 else 0}"
     | .error e => pure' s!"err|{serrName e}"
   | ["split", s] =>
     match splitFactors s.toList with
